@@ -51,6 +51,8 @@ var c08Causes = []string{
 	"sshd-pipe-eof", "audit-pipe-eof", "malformed-audit-line",
 	// end-of-stream in the middle of a record (the writer died mid-line)
 	"sshd-pipe-eof-mid-record", "audit-pipe-eof-mid-record",
+	// not one offending record but a burst of them (each is an error of its own)
+	"burst-of-unauditable-records",
 	"write-failure-on-sshd-line",
 	"sshd-path-regular-file", "sshd-path-missing", "sshd-path-directory",
 	"audit-path-regular-file", "audit-path-missing", "audit-path-directory",
@@ -226,7 +228,7 @@ func c08Run(r *vlib.Run, sc c08Scenario, idx int) (evaluated bool) {
 		return f
 	}
 	needS := strings.HasPrefix(sc.Cause, "sshd-pipe-eof") || sc.Cause == "write-failure-on-sshd-line"
-	needA := strings.HasPrefix(sc.Cause, "audit-pipe-eof") || sc.Cause == "malformed-audit-line"
+	needA := strings.HasPrefix(sc.Cause, "audit-pipe-eof") || sc.Cause == "malformed-audit-line" || sc.Cause == "burst-of-unauditable-records"
 	if sc.OutputMissing {
 		// no worker is started before the output file exists: nobody will open the pipes
 	} else if !strings.HasPrefix(sc.Cause, "sshd-path") && (!sc.NoWriter || needS) {
@@ -391,6 +393,17 @@ func c08Run(r *vlib.Run, sc c08Scenario, idx int) (evaluated bool) {
 		} else if wa != nil {
 			io.WriteString(wa, bad)
 		}
+	case "burst-of-unauditable-records":
+		// LOGIN records whose pid is not a number: parsable lines, each rejected by the correlator
+		var b strings.Builder
+		for k := 0; k < 40; k++ {
+			b.WriteString(vlib.AuLogin(vlib.BaseTSms+700000+int64(k), uint32(700000+k), "notanumber", strconv.Itoa(880000+k)) + "\n")
+		}
+		if pm != nil {
+			pm.inject <- b.String()
+		} else if wa != nil {
+			io.WriteString(wa, b.String())
+		}
 	case "write-failure-on-sshd-line":
 		if ws != nil {
 			io.WriteString(ws, "4242 Invalid user bob from 10.0.0.1 port 22\n")
@@ -529,7 +542,7 @@ func checkC08(r *vlib.Run) int {
 	r.Assumptions = []string{"'saturated' is observed: the pumping writer's write(2) hit EAGAIN at least five times and the number of lines in flight between pipe and output stopped growing (or passed 10000) before the fault is injected, otherwise the scenario is inconclusive",
 		"'does not exit' is a violation only if the SIGQUIT dump shows main parked in errgroup.Wait and a worker parked; otherwise inconclusive",
 		"signals may end the process with any status; failures must give a non-zero status"}
-	return r.Finish(evals, dist.Len(), "built daemon x failure cause {sshd pipe EOF, audit pipe EOF, either pipe's EOF in the middle of a record, malformed audit line, event write failure via /dev/full, sshd/audit path is a regular file / missing / a directory, SIGTERM, SIGINT} x load {idle with writers attached, idle with the other pipe still waiting for its writer, saturated by a pumping writer} x log level {error, debug}, six causes with the HTTP health/metrics server enabled and three of them with a scrape client that never reads its answers, every cause with -audit-metrics (ticker member of the worker group, 20 ms), both signals while the daemon still waits for its events output file to appear, every cause right after the pipes were opened (workers still starting up); thorough: x3 and with the -race build; distinct = (cause, load) pairs evaluated")
+	return r.Finish(evals, dist.Len(), "built daemon x failure cause {sshd pipe EOF, audit pipe EOF, either pipe's EOF in the middle of a record, malformed audit line, a burst of 40 LOGIN records with a non-numeric pid, event write failure via /dev/full, sshd/audit path is a regular file / missing / a directory, SIGTERM, SIGINT} x load {idle with writers attached, idle with the other pipe still waiting for its writer, saturated by a pumping writer} x log level {error, debug}, six causes with the HTTP health/metrics server enabled and three of them with a scrape client that never reads its answers, every cause with -audit-metrics (ticker member of the worker group, 20 ms), both signals while the daemon still waits for its events output file to appear, every cause right after the pipes were opened (workers still starting up); thorough: x3 and with the -race build; distinct = (cause, load) pairs evaluated")
 }
 
 func lastLineOf(s string) string {
